@@ -178,6 +178,16 @@ m("C14-f", "C14", "impls/src/backends/lmdb.rs", "\t\t\t\t\tk.mask_master_key(&ma
 m("C15-e", "C15", "libwallet/src/internal/keys.rs", "p.path[0] = ChildNumber::from(<u32>::from(p.path[0]) + 1);", "p.path[0] = ChildNumber::from(<u32>::from(p.path[0]) + 0);", "C15.R5")
 m("C15-f", "C15", "libwallet/src/internal/keys.rs", "\tif wallet.acct_path_iter().any(|l| l.label == label) {\n\t\treturn Err(Error::AccountLabelAlreadyExists(label));\n\t}\n\n\t// We're always using paths", "\t// We're always using paths", "C15.R5")
 
+m("C11-g", "C11", "libwallet/src/internal/tx.rs", "\t\t\tcreate_payment_proof_signature(slate.amount, &excess, p.sender_address, sender_key)?;", "\t\t\tcreate_payment_proof_signature(slate.amount, &excess, p.receiver_address, sender_key)?;", "C11.R4")
+m("C11-h", "C11", "libwallet/src/api_impl/owner.rs", "\tif sender_pubkey.verify(&msg, &proof.sender_sig).is_err() {", "\tif sender_pubkey.verify(&msg, &proof.recipient_sig).is_err() && recipient_pubkey.verify(&msg, &proof.recipient_sig).is_err() {", "C11.R3")
+m("C11-j", "C11", "libwallet/src/api_impl/owner.rs", "\tlet msg = tx::payment_proof_message(proof.amount, &proof.excess, sender_pubkey)?;", "\tlet msg = tx::payment_proof_message(proof.amount, &proof.excess, proof.recipient_address.pub_key)?;", "C11.R4")
+
+# ---- from the fourth wave
+m("C17-f", "C17", "libwallet/src/api_impl/owner.rs", "\t\t\tif tip.0 >= e {\n\t\t\t\twallet_lock!(wallet_inst, w);\n\t\t\t\tlet parent_key_id = w.parent_key_id();\n\t\t\t\ttx::cancel_tx(&mut **w, keychain_mask, &parent_key_id, Some(tx.id), None)?;\n\t\t\t}", "\t\t\tif tip.0 >= e {\n\t\t\t\twallet_lock!(wallet_inst, w);\n\t\t\t\tlet parent_key_id = w.parent_key_id();\n\t\t\t\ttx::cancel_tx(&mut **w, keychain_mask, &parent_key_id, Some(tx.id), None)?;\n\t\t\t} else {\n\t\t\t\tbreak;\n\t\t\t}", "C17.R2")
+m("C18-g", "C18", "libwallet/src/internal/updater.rs", "\t\tif height < last_confirmed_height {", "\t\tif height <= last_confirmed_height {", "C18.R5")
+m("C10-g", "C10", "libwallet/src/slatepack/types.rs", "\t\treader.read_to_end(&mut decrypted)?;", "\t\tlet _ = reader.read_to_end(&mut decrypted);", "C10.R3")
+m("C19-f", "C19", "libwallet/src/internal/updater.rs", "\t\t\tRetrieveTxQuerySortOrder::Desc => return_txs.reverse(),", "\t\t\tRetrieveTxQuerySortOrder::Desc => {}", "C19.R1")
+
 
 def for_property(prop):
     return [x for x in M if x["property"] == prop]
